@@ -16,7 +16,7 @@ from vf.ref import blk_ref
 PROPERTY = 'C04'
 LEVEL = 'model_checking'
 
-NPAY = 40000
+NPAY = 80000
 _PAY = {}
 _TIER = 'quick'
 _SEED = 0
@@ -98,8 +98,8 @@ def judge(final, payload):
 def menu(r, tier, fresh=False):
     # the fresh state gets every size in both tiers: that is what makes every residue reachable at level 1
     if tier == 'thorough' or fresh:
-        return list(range(0, 3041)) + [6000, 10000]
-    m = set(range(0, 1017)) | {6000}
+        return list(range(0, 3041)) + [6000, 8191, 8192, 8193, 10000, 16384, 20001, 39000]
+    m = set(range(0, 1017)) | {6000, 8191, 8192, 8193, 10000, 20001}
     for base in (0, 1012, 2024):
         for d in range(-2, 3):
             m.add(r + base + d)
@@ -160,7 +160,7 @@ def expand(batch):
                         res[n] = (k, delta)
                         lst = succ.setdefault(k, [])
                         h2 = hist + [n]
-                        if len(lst) < 2 and h2 not in lst and sum(h2) < NPAY - 12000:
+                        if len(lst) < 2 and h2 not in lst and sum(h2) < NPAY - 42000:
                             lst.append(h2)
             per_hist.append(res)
         if len(per_hist) == 2 and per_hist[0] != per_hist[1]:
@@ -215,12 +215,12 @@ def run(tier, seed):
                 'equal the reference blocking of the bytes written (+ at most one trailing all-fill block). Each '
                 'state is also finalised via finalise/seek(0)/close. A case = (state, write size, content coding); '
                 'non-trivial when the write is non-empty. One-shot block_1014 compared with the reference for every '
-                'payload length 0..%d.' % ('every n in 0..3040 plus 6000, 10000' if tier == 'thorough' else
-                                          'every n in 0..1016, r-2..r+2 (+1012, +2024), '
+                'payload length 0..%d.' % ('every n in 0..3040 plus 6000, 8191..8193, 10000, 16384, 20001, 39000' if tier == 'thorough' else
+                                          'every n in 0..1016, r-2..r+2 (+1012, +2024), 6000, 8191..8193, 10000, 20001, '
                                           '2022..2028, 3034..3040, 6000; r = bytes free in the block', top),
         'assumptions': ['only the finalised output is judged (the statement does not constrain the file between '
                         'writes)', 'content codings: position code of period 251 without 0x00/0x40, all-0x40, '
-                        'all-0x00', 'single writes above 10000 bytes repeat the same loop body and are not explored'],
+                        'all-0x00', 'single writes above 39000 bytes are not explored'],
         'bounds': {'write_size_max': 3040 if tier == 'thorough' else 'menu', 'histories_per_state': 2,
                    'payload_residues_reached': len(residues)},
         'exhaustive': not caps and len(residues) == 1012,
